@@ -18,6 +18,11 @@ RULE = (
     "function from inside the running coroutine raises RuntimeError. "
     "distinct = program hash; non-trivial = at least 3 task instances."
 )
+RULE += (
+    " Exception class 'cached' (one error object raised again and again) is part of every generator; one "
+    "program in ten is a 'recatch' program (several children raise the same cached object, one body catches it "
+    "again and again and keeps awaiting)."
+)
 ASSUMPTIONS = ["the quantifier is restricted to what resolve_awaitables claims to support (no batch items, ErrorFuture, lazy Future, result(), contexts)"]
 UNIT_TIMEOUT = {"quick": 240, "thorough": 2400}
 
